@@ -36,6 +36,7 @@ struct Resp {
   int framing = 0;  // 0 Content-Length, 1 chunked, 2 close-delimited, 3 no framing header
   int cl_zeros = 0;
   size_t frame_pos = 0;
+  int te_style = 0;  // spelling of the Transfer-Encoding value (index into te_value's table)
   int both_cl = -1;  // chunked response which ALSO carries a Content-Length (a sender must not; a recipient lets Transfer-Encoding win or rejects): -1 no, else bit0 = CL after TE, bits 1.. = which value
   std::string body;
   std::vector<Chunk> chunks;
@@ -100,6 +101,11 @@ struct Built {
 static void put_headers(std::string &w, const std::vector<Hdr> &hs) {
   for (auto &h : hs) w += h.name + ":" + h.pre + h.value + h.post + "\r\n";
 }
+// the final coding is chunked; other codings may have been applied before it (the client hands their result over undecoded)
+static std::string te_value(const Resp &r) {
+  static const char *TE[] = {"chunked", "chunked", "chunked", "chunked", "chunked", "gzip, chunked", "gzip,chunked", "identity, chunked", "deflate,\tchunked", "x-foo;q=1,chunked"};
+  return TE[(size_t)r.te_style % 10];
+}
 static std::string both_cl_value(const Resp &r) {
   int k = r.both_cl >> 1;
   return k % 3 == 0 ? std::to_string(r.body.size()) : k % 3 == 1 ? "3" : std::to_string(r.body.size() + 7 * r.chunks.size() + 5);
@@ -128,7 +134,7 @@ static void serialise(Built &b) {
         w += v + "\r\n";
       } else if (r.framing == 1) {
         if (r.both_cl >= 0 && !(r.both_cl & 1)) w += "Content-Length: " + both_cl_value(r) + "\r\n";
-        w += "Transfer-Encoding: chunked\r\n";
+        w += "Transfer-Encoding: " + te_value(r) + "\r\n";
         if (r.both_cl >= 0 && (r.both_cl & 1)) w += "Content-Length: " + both_cl_value(r) + "\r\n";
       }
     }
@@ -197,6 +203,7 @@ static Built build(const Case &c) {
       r.cl_zeros = (int)U(1, 0, 8);
       r.frame_pos = (size_t)U(2, 0, 100);
       r.both_cl = A(3) > 0 ? (int)U(3, 1, 12) - 1 : -1;
+      r.te_style = (int)U(4, 0, 9);
     } else if (op.k == "b") {
       r.body = prbytes((uint64_t)A(1), (size_t)U(0, 0, 4 << 20));
     } else if (op.k == "ch" && r.chunks.size() < 5000) {
@@ -414,6 +421,11 @@ static void run_request(const Request &rq, Plan &p, Got &g) {
         g.timer = shim_timer_register(http_cancel_cb, nullptr, (long)(p.cancel_at / 1000000), (long)(p.cancel_at % 1000000));
       for (int i = 0; i < 200000 && !g.callbacks && !g.cancelled && !X->failed; i++) {
         K().stuck = false;
+        // between two turns of its loop the application may have done anything, e.g. left ERANGE in errno
+        {
+          static const int AMB[] = {0, ERANGE, EINVAL, EAGAIN, EINTR, ENOMEM};
+          errno = AMB[(size_t)(i + (int)p.limit) % 6];
+        }
         int rc = shim_events_run();
         if (rc != 0 && !(rc == p.cb_rc && g.callbacks == 1)) {
           X->fail("events-run-error", "events_run returned " + std::to_string(rc));
@@ -591,7 +603,7 @@ static Outcome run_c09(const Case &c) {
           if (r.framing == 0) eh.push_back({"Content-Length", std::string((size_t)r.cl_zeros, '0') + std::to_string(r.body.size())});
           if (r.framing == 1) {
             if (r.both_cl >= 0 && !(r.both_cl & 1)) eh.push_back({"Content-Length", both_cl_value(r)});
-            eh.push_back({"Transfer-Encoding", "chunked"});
+            eh.push_back({"Transfer-Encoding", te_value(r)});
             if (r.both_cl >= 0 && (r.both_cl & 1)) eh.push_back({"Content-Length", both_cl_value(r)});
             if (r.both_cl >= 0) x.cls.insert("content-length-next-to-chunked");
           }
@@ -664,7 +676,7 @@ static void gen_response_ops(Case &c, int tier, bool hostile) {
     c.push_back(Op("h", {*rc::gen::arbitrary<int>(), *range<int>(0, 20), *range<int>(0, 2), *rc::gen::weightedOneOf<int>({{2, rc::gen::just(0)}, {5, range<int>(1, 30)}, {1, range<int>(100, 300)}}),
                          *range<int>(0, 5), *range<int>(0, 5)}));
   int framing = *rc::gen::weightedElement<int>({{4, 0}, {6, 1}, {3, 2}, {1, 3}});
-  c.push_back(Op("fr", {framing, *rc::gen::weightedElement<int>({{4, 0}, {1, 1}, {1, 5}}), *range<int>(0, nh), (framing == 1 && !hostile && *range<int>(0, 11) == 0) ? *range<int>(1, 12) : 0}));
+  c.push_back(Op("fr", {framing, *rc::gen::weightedElement<int>({{4, 0}, {1, 1}, {1, 5}}), *range<int>(0, nh), (framing == 1 && !hostile && *range<int>(0, 11) == 0) ? *range<int>(1, 12) : 0, *range<int>(0, 9)}));
   int64_t maxbody = tier ? 300000 : 70000;
   int64_t bl = *rc::gen::weightedOneOf<int64_t>({{2, rc::gen::just<int64_t>(0)}, {5, range<int64_t>(1, 100)}, {3, range<int64_t>(100, 5000)},
                                                  {2, rc::gen::elementOf(std::vector<int64_t>{4094, 4095, 4096, 4097, 4098, 8192})}, {1, range<int64_t>(5000, maxbody)}});
